@@ -108,6 +108,7 @@ func checkCase(c *hx.Ctx, id string, root *node, cf cfg) *caseOut {
 
 	// ---- superblock clause -----------------------------------------------------------------------
 	_, sberr, sbtag := checkSuperblock(b.dev, cf, d+f+l+1)
+	regionCase(c, id, root, cf, b.dev) // model-vs-impl: write log and table starts against the Lean region model
 
 	// ---- view clause -----------------------------------------------------------------------------
 	var fsys *squashfs.FileSystem
